@@ -177,6 +177,13 @@ class SeqSuite(Suite):
                     mv = rng.choice(["mvctor", "mvassign"])
                 lines.append(mv)
                 continue
+            if ex and r > 0.9 and len(live) < maxlive:
+                # the factory of the extra object throws: raw request or coroutine creation; no frame comes into existence
+                if rng.random() < 0.5:
+                    lines.append("athrow 0 %d" % pick_size())
+                else:
+                    lines.append("cthrow 0 %d" % rng.randint(0, 7))
+                continue
             want_alloc = len(live) < maxlive and (not live or rng.random() < 0.55)
             if want_alloc:
                 k = 0
@@ -394,6 +401,23 @@ class SeqSuite(Suite):
                     exs = [x for x in head if x.startswith("ex=")]
                     if not exs or exs[0] != "ex=+0-1@%d:ok" % fsz.get(fid, -1):
                         msgs.append("extra: the extra object was not destroyed exactly once with the frame (%s)" % (exs[:1] or "nothing"))
+            elif kind in ("athrow", "cthrow"):
+                # the extra object's factory threw: nothing may remain — no object (ctor/dtor balance), and the memory
+                # handed out by the inner policy is back (a leaked block shows at `end`, a stuck _busy at the next frame)
+                if field(head, "thrown") != "1":
+                    msgs.append("extra: the exception of the extra object's factory did not reach the caller")
+                if field(head, "ex") != "+0-0":
+                    msgs.append("extra: a throwing factory left constructor/destructor calls unbalanced (%s)" % field(head, "ex"))
+                news_before = set(hv.blocks)
+                hv.events(evs)
+                left = [b for b in hv.blocks if b not in news_before]
+                if pol in ("default", "mtsafe") and left and not (pol == "mtsafe" and shared is None and len(left) == 1):
+                    msgs.append("leak: the block obtained for a frame whose extra object could not be constructed was kept (%s)" % ",".join(left))
+                if pol == "mtsafe" and shared is None:
+                    # the request went to the free shared block, which thereby warmed up
+                    max_shared = max(max_shared, int(field(head, "sz")) + ex)
+                if pol == "reusable":
+                    maxneed = max(maxneed, int(field(head, "sz")) + ex)
             elif kind == "assert":
                 # the library rejected the request (static_storage's assert): allowed exactly when frame + trailer do not fit
                 sz = int(field(head, "sz"))
